@@ -698,8 +698,19 @@ fn eval_doc(ctx: &Ctx, acc: &mut Acc, case: &Case, t: &Tok, pin_other: bool, m: 
 
 // ------------------------------------------------------------------ (c) verifier table
 const VMSG: &[u8] = b"eyJhbGciOiJFZERTQSJ9.aGk";
-const VKEYS: [&str; 9] =
-  ["ed25519", "p256", "k256", "okp-labelled-X25519", "ed25519-x-31-bytes", "p256-x-31-bytes", "p256-labelled-secp256k1", "k256-labelled-P-256", "ed25519-other"];
+const VKEYS: [&str; 11] = [
+  "ed25519",
+  "p256",
+  "k256",
+  "okp-labelled-X25519",
+  "ed25519-x-31-bytes",
+  "p256-x-31-bytes",
+  "p256-labelled-secp256k1",
+  "k256-labelled-P-256",
+  "ed25519-other",
+  "k256-x-31-bytes",
+  "p256-y-33-bytes",
+];
 const VSIGS: [&str; 10] =
   ["valid-ed", "valid-p256", "valid-k256", "ed-truncated", "ed-plus-one-byte", "p256-truncated", "k256-plus-one-byte", "empty", "64-zero-bytes", "ed-over-other-message"];
 const VALGS: [&str; 5] = ["EdDSA", "ES256", "ES256K", "ES384", "HS256"];
@@ -750,7 +761,23 @@ fn vkey(k: u8) -> Jwk {
       }
       j
     }
-    _ => public(0, 1),
+    8 => public(0, 1),
+    9 => {
+      let mut j = public(2, 0);
+      if let JwkParams::Ec(p) = j.params_mut() {
+        p.x = trunc(&p.x);
+      }
+      j
+    }
+    _ => {
+      let mut j = public(1, 0);
+      if let JwkParams::Ec(p) = j.params_mut() {
+        let mut bytes = identity_jose::jwu::decode_b64(&p.y).unwrap();
+        bytes.push(7);
+        p.y = b64(bytes);
+      }
+      j
+    }
   }
 }
 fn vsig(s: u8) -> Vec<u8> {
@@ -790,12 +817,15 @@ fn eval_ver(ctx: &Ctx, acc: &mut Acc, case: &Case, alg: u8, key: u8, sig: u8) {
   let input = VerificationInput { alg: a, signing_input: VMSG.to_vec().into(), decoded_signature: vsig(sig).into() };
   let who = match alg {
     0 => "EdDSAJwsVerifier::verify",
-    _ => "EcDSAJwsVerifier::verify",
+    1 => "EcDSAJwsVerifier::verify[ES256]",
+    2 => "EcDSAJwsVerifier::verify[ES256K]",
+    _ => "RealVerifier::verify[unsupported-alg]",
   };
   // the (alg, key, signature) triples that are a genuine signature by that very key over the message
   let genuine = matches!((alg, key, sig), (0, 0, 0) | (1, 1, 1) | (2, 2, 2));
-  // key material is genuine for the alg but carries another curve label: recorded, not judged
-  let mislabelled = matches!((alg, key, sig), (1, 6, 1) | (2, 7, 2));
+  // key material is genuine for the alg but carries another curve label, or a coordinate with trailing bytes
+  // (the statement is about tokens, not about malformed caller keys): recorded, not judged
+  let mislabelled = matches!((alg, key, sig), (1, 6, 1) | (2, 7, 2) | (1, 10, 1));
   match guard(|| RealVerifier.verify(input, &k)) {
     Err(p) => ctx.violation(&format!("{who}|{}", p.key()), &p.msg, case),
     Ok(Ok(())) => {
@@ -869,7 +899,8 @@ fn toks(algs: &[u8], sps: &[u8], pls: &[u8], aps: &[u8]) -> Vec<Tok> {
   v
 }
 
-fn account(ctx: &Ctx, name: &str, n: u64, detail: serde_json::Value) {
+fn account(ctx: &Ctx, name: &str, n: u64, mut detail: serde_json::Value) {
+  detail["elapsed_s_at_end"] = json!((ctx.elapsed_s() * 10.0).round() / 10.0);
   ctx.add_states(n);
   ctx.add_transitions(n);
   ctx.add_traces(n);
@@ -887,6 +918,7 @@ fn generate(ctx: &Ctx) {
   } else {
     rows.extend(toks(&[1, 2], &[0, 1, 2, 3], &all, &[0, 1, 2, 3]));
   }
+  rows.retain(|t| build(t, false, None).is_some());
   let mut cases = Vec::new();
   for t in &rows {
     for pin in 0..3u8 {
@@ -910,11 +942,12 @@ fn generate(ctx: &Ctx) {
   ctx.bound("construction_rows", cases.len());
 
   // ---- (b)
-  let mut base: Vec<Tok> = toks(&[0], &[0, 1, 2, 3], &all, &[0]);
+  let mut base: Vec<Tok>;
   if ctx.quick() {
+    base = toks(&[0], &[0, 2], &all, &[0]);
     base.extend(toks(&[1, 2], &[0], &[1], &[0]));
   } else {
-    base.extend(toks(&[1, 2], &[0, 1, 2, 3], &all, &[0]));
+    base = toks(&[0, 1, 2], &[0, 1, 2, 3], &all, &[0]);
   }
   let swept = std::sync::atomic::AtomicU64::new(0);
   let tokens = std::sync::atomic::AtomicU64::new(0);
